@@ -999,6 +999,10 @@ class Ev:
     def canon_call(self, callee: P, args, kwargs, node) -> P:
         ca = callee.as_atom()
         name = ca[1] if ca and ca[0] == "name" else None
+        if name in ("numpy.asarray", "numpy.asanyarray") and len(args) == 1 and not kwargs and args[0].as_atom() \
+                and args[0].as_atom()[0] == "name" and args[0].as_atom()[1] in self.param_names:
+            # x = np.asarray(x) of a parameter, no dtype: the same values, length and dtype - the parameter itself for every rule here
+            return args[0]
         if name in ("tuple", "list") and len(args) == 1 and not kwargs and args[0].as_atom() and args[0].as_atom()[0] == "tuple":
             # tuple([a, b]) / list((a, b)) of a literal is the literal
             return args[0]
